@@ -864,8 +864,17 @@ def flw10(ctx):
                             conds.append(s0["cond"])
                 child = x
                 x = fpar.get(id(x))
-            tested = any((mm["e"] == "path" and (mm.get("local") == "state_index" or mm.get("hid") in derived)) or (
-                mm["e"] == "mcall" and mm["name"] == "len" and expr_name(mm["recv"]) == ("local", states_p)) for c in conds for mm in hirq.walk(c))
+            def _mentions(c):
+                return any((mm["e"] == "path" and (mm.get("local") == "state_index" or mm.get("hid") in derived)) or (
+                    mm["e"] == "mcall" and mm["name"] == "len" and expr_name(mm["recv"]) == ("local", states_p)) for mm in hirq.walk(c))
+
+            def _disjuncts(c):
+                c = hirq.strip(c)
+                if isinstance(c, dict) and c.get("e") == "binary" and c.get("op") == "Or":
+                    return _disjuncts(c["a"]) + _disjuncts(c["b"])
+                return [c]
+            # the test must hold on every way into the fallback: each alternative of an `||` has to make it
+            tested = any(all(_mentions(d) for d in _disjuncts(c)) for c in conds)
             r.inst("%s: the end-of-word insertion point is returned only under a test of how much of the context there is / was matched" % fname, fn_loc(fb, node["ln"]), "ok" if tested else "report")
             if not tested:
                 r.report("FLW-10|%s|fallback#%d" % (fname, m - 1), fn_loc(fb, node["ln"]), fb.path,
